@@ -2,10 +2,12 @@ package checks
 
 import (
 	"fmt"
+	"go/constant"
 	"go/token"
 	"go/types"
 	"regexp"
 	"sort"
+	"strconv"
 	"strings"
 
 	"golang.org/x/tools/go/ssa"
@@ -753,7 +755,8 @@ func runC20(c *Ctx) {
 	R.Require("S.expected-reply", 11, "")
 	R.Require("S.serial-progression", 4, "")
 	R.Require("E6.template", 3, "")
-	R.Explain = "Acceptance of every generated frame for every phone, and byte equality with a live server, are value-level and not decided. Decided: the simulator and the server register the same model types for all reply-bearing IDs they share; ExpectedReply and the server's reply function have the same construction (header of the decoded request, ReplyProtocol, serial, ReplyBody of the same message); the generators increment the serial once by one before the single Encode and nothing else writes it; the template frame's checksum covers the framed bytes and is escaped with the codec's table on every path (abstract interpretation of the closure); panic-freedom obligations of the simulator's functions."
+	c.defaultBodiesRule()
+	R.Explain = "Acceptance of every generated frame for every phone, and byte equality with a live server, are value-level and not decided. Decided: the default message values satisfy the length conditions under which their type's encoder / parser pair round-trips (constant evaluation of the constructor literals against the conditions C07 derives); the simulator and the server register the same model types for all reply-bearing IDs they share; ExpectedReply and the server's reply function have the same construction (header of the decoded request, ReplyProtocol, serial, ReplyBody of the same message); the generators increment the serial once by one before the single Encode and nothing else writes it; the template frame's checksum covers the framed bytes and is escaped with the codec's table on every path (abstract interpretation of the closure); panic-freedom obligations of the simulator's functions."
 }
 
 func describeCode(st *absint.State, code absint.Term) string {
@@ -777,4 +780,150 @@ func instrPos(v ssa.Value) token.Pos {
 		return ins.Pos()
 	}
 	return v.Pos()
+}
+
+// defaultBodiesRule: the default message values the simulator generates frames from satisfy the in-domain conditions
+// under which the type's Encode / Parse pair round-trips (C07 derives them from the two functions: a length field
+// equals the length of the value it announces, a fixed-width value has that width). The constructors are composite
+// literals of constants, so the conditions are decided by constant evaluation.
+func (c *Ctx) defaultBodiesRule() {
+	R := c.R
+	R.Rules["S.default-bodies"] = "every default message value of the simulator (constructor literals in the terminal package) satisfies the in-domain conditions of its type's encoder / parser pair as derived by C07 (length field == length of the announced value, fixed-width values have their width): otherwise the generated body does not parse with the matching message type"
+	byName := map[string]*c07Type{}
+	for _, t0 := range c.c07Types() {
+		byName[t0.name] = t0
+	}
+	cond := map[string][]string{}
+	condOf := func(name string) []string {
+		if v, ok := cond[name]; ok {
+			return v
+		}
+		var out []string
+		if t0 := byName[name]; t0 != nil {
+			vs := c.c07Variants(t0)
+			if len(vs) == 1 {
+				c.c07Extract(vs[0])
+				if dec, _, ass, _ := c.c07Compare(vs[0], nil); dec {
+					out = ass
+				}
+			}
+		}
+		cond[name] = out
+		return out
+	}
+	n := 0
+	for _, fn := range c.RepoFuncs("terminal") {
+		if fn.Parent() != nil || !strings.HasPrefix(fn.Name(), "new") {
+			continue
+		}
+		for _, b := range fn.Blocks {
+			for _, ins := range b.Instrs {
+				al, isAl := ins.(*ssa.Alloc)
+				if !isAl {
+					continue
+				}
+				nt, isN := al.Type().Underlying().(*types.Pointer).Elem().(*types.Named)
+				if !isN || nt.Obj().Pkg() == nil || !strings.HasSuffix(nt.Obj().Pkg().Path(), "protocol/model") {
+					continue
+				}
+				stt, isS := nt.Underlying().(*types.Struct)
+				if !isS {
+					continue
+				}
+				conds := condOf(nt.Obj().Name())
+				if len(conds) == 0 {
+					continue
+				}
+				ints := map[string]int64{}
+				strs := map[string]string{}
+				dyn := map[string]bool{}
+				for _, ref := range *al.Referrers() {
+					fa, isFA := ref.(*ssa.FieldAddr)
+					if !isFA {
+						continue
+					}
+					fname := stt.Field(fa.Field).Name()
+					for _, r2 := range *fa.Referrers() {
+						st, isSt := r2.(*ssa.Store)
+						if !isSt || st.Addr != ssa.Value(fa) {
+							continue
+						}
+						k, isK := st.Val.(*ssa.Const)
+						if !isK || k.Value == nil {
+							dyn[fname] = true
+							continue
+						}
+						switch k.Value.Kind() {
+						case constant.Int:
+							v, _ := constant.Int64Val(k.Value)
+							ints[fname] = v
+						case constant.String:
+							strs[fname] = constant.StringVal(k.Value)
+						default:
+							dyn[fname] = true
+						}
+					}
+				}
+				for _, cd := range conds {
+					var lhs, rhs string
+					if k := strings.Index(cd, " == "); k > 0 {
+						lhs, rhs = cd[:k], cd[k+4:]
+					} else {
+						continue
+					}
+					lenOf := func(s string) (string, bool) {
+						if strings.HasPrefix(s, "len(") && strings.HasSuffix(s, ")") {
+							return s[4 : len(s)-1], true
+						}
+						return "", false
+					}
+					key := fmt.Sprintf("%s / %s", fn.Name(), cd)
+					ascii := func(s string) bool {
+						for i := 0; i < len(s); i++ {
+							if s[i] >= 0x80 {
+								return false
+							}
+						}
+						return true
+					}
+					if vf, isLen := lenOf(rhs); isLen {
+						// <LenField> == len(<ValueField>)
+						if dyn[lhs] || dyn[vf] || !ascii(strs[vf]) {
+							R.AddInfo("S.default-bodies", key, c.P.RelPos(al.Pos()), report.Undecided, "one side is not a constant (or the text is not ASCII, so its wire length is the GBK length): not decided")
+							continue
+						}
+						n++
+						st, d := report.Discharged, ""
+						if ints[lhs] != int64(len(strs[vf])) {
+							st, d = report.Violated, fmt.Sprintf("%s is %d but %s %q has %d bytes: the body announces a length it does not carry and does not parse with %s", lhs, ints[lhs], vf, strs[vf], len(strs[vf]), nt.Obj().Name())
+						}
+						R.Add("S.default-bodies", key, c.P.RelPos(al.Pos()), st, d)
+					} else if vf, isLen := lenOf(lhs); isLen {
+						// len(<ValueField>) == N
+						want, err := strconv.ParseInt(rhs, 10, 64)
+						if err != nil {
+							continue
+						}
+						if dyn[vf] || !ascii(strs[vf]) {
+							R.AddInfo("S.default-bodies", key, c.P.RelPos(al.Pos()), report.Undecided, "the value is not a constant ASCII string: not decided")
+							continue
+						}
+						if _, set := strs[vf]; !set {
+							// not a string field of the literal (byte slices, arrays): not decided here
+							R.AddInfo("S.default-bodies", key, c.P.RelPos(al.Pos()), report.Undecided, "the value is not set by a string constant in the literal: not decided")
+							continue
+						}
+						n++
+						st, d := report.Discharged, ""
+						if int64(len(strs[vf])) != want {
+							st, d = report.Violated, fmt.Sprintf("%s %q has %d bytes, the encoder / parser pair needs %d", vf, strs[vf], len(strs[vf]), want)
+						}
+						R.Add("S.default-bodies", key, c.P.RelPos(al.Pos()), st, d)
+					}
+				}
+			}
+		}
+	}
+	R.Notes["default_body_conditions_decided"] = n
+	R.Require("S.default-bodies", 4, "")
 }
